@@ -473,7 +473,7 @@ func (w *workerProc) readResultWatched(c *Check, seed uint64) (*workerResult, er
 		case x := <-ch:
 			return x.r, x.err
 		case <-tick.C:
-			if rss := rssOf(w.cmd.Process.Pid); rss > 12<<30 {
+			if rss := rssOf(w.cmd.Process.Pid); rss > 8<<30 {
 				w.watchdog = fmt.Sprintf("WATCHDOG: seed %d: worker resident memory %d MiB", seed, rss>>20)
 				if rss > 20<<30 {
 					w.cmd.Process.Kill() // growing by gigabytes per second: protect the machine first
